@@ -28,28 +28,28 @@ Qed.
 Lemma validate_ok_facts o :
   validate o = VRok ->
   0 <= eo_idx o /\
-  (forall t, eo_tx o = Some t -> eo_idx o <= Z.of_nat (length (ot_ins t)) - 1) /\
+  (forall t, eo_tx o = Some t -> exists i, index (ot_ins t) (eo_idx o) = IOk (Some i)) /\
   (eo_lock o = None -> exists pl, eo_prev o = Some (Some pl)) /\
-  (eo_unlock o = None -> exists t i u, eo_tx o = Some t /\ index (ot_ins t) (eo_idx o) = IOk i /\ oi_unlock i = Some u).
+  (eo_unlock o = None -> exists t i u, eo_tx o = Some t /\ index (ot_ins t) (eo_idx o) = IOk (Some i) /\ oi_unlock i = Some u).
 Proof.
   unfold validate. intros H.
   destruct (eo_idx o <? 0) eqn:E0; [discriminate|]. cbn [orb] in H.
-  assert (Hr : forall t, eo_tx o = Some t -> eo_idx o <= Z.of_nat (length (ot_ins t)) - 1).
-  { intros t Ht. rewrite Ht in H. destruct (eo_idx o >? _) eqn:E1; [discriminate|]. lia. }
-  split; [lia|]. split; [exact Hr|].
+  split; [lia|].
   destruct (eo_tx o) as [t|] eqn:Ht.
   - destruct (eo_idx o >? _) eqn:E1; [discriminate|].
-    destruct (ot_ins t) as [|i0 ins] eqn:Hins.
-    + (* no inputs: the range check already failed *)
-      specialize (Hr t eq_refl). rewrite Hins in Hr. cbn in Hr. lia.
-    + rewrite <- Hins in *.
-      destruct (index_in_range (ot_ins t) (eo_idx o)) as [i Hi]; [lia|apply Hr; reflexivity|].
-      rewrite Hi in H.
-      destruct (eo_lock o) as [l|] eqn:Hl; destruct (eo_prev o) as [[pl|]|] eqn:Hp; cbn in H; try discriminate;
-        (split; [intros; try discriminate; eauto|]);
-        destruct (eo_unlock o) as [u|] eqn:Hu; intros; try discriminate;
-        destruct (oi_unlock i) as [iu|] eqn:Hiu; cbn in H; try discriminate; eauto 8.
-  - destruct (eo_lock o) as [l|] eqn:Hl; destruct (eo_prev o) as [[pl|]|] eqn:Hp; cbn in H; try discriminate;
+    destruct (index_in_range (ot_ins t) (eo_idx o)) as [x Hi]; [lia|lia|].
+    rewrite Hi in H. destruct x as [i|]; [|discriminate].
+    assert (Hne : ot_ins t <> []).
+    { intros E. rewrite E in E1. cbn in E1. lia. }
+    split; [intros t' [= <-]; eauto|].
+    destruct (ot_ins t) as [|i0 ins] eqn:Hins; [congruence|].
+    destruct (eo_lock o) as [l|] eqn:Hl; destruct (eo_prev o) as [[pl|]|] eqn:Hp; cbn in H; try discriminate;
+      (split; [intros; try discriminate; eauto|]);
+      destruct (eo_unlock o) as [u|] eqn:Hu; intros; try discriminate;
+      destruct (oi_unlock i) as [iu|] eqn:Hiu; cbn in H; try discriminate;
+      try (exists t, i, iu; rewrite Hins; auto); eauto 8.
+  - split; [intros; discriminate|].
+    destruct (eo_lock o) as [l|] eqn:Hl; destruct (eo_prev o) as [[pl|]|] eqn:Hp; cbn in H; try discriminate;
       (split; [intros; try discriminate; eauto|]);
       destruct (eo_unlock o) as [u|] eqn:Hu; intros; try discriminate; cbn in H; try discriminate.
 Qed.
@@ -60,17 +60,13 @@ Proof.
   destruct (eo_idx o <? 0) eqn:E0; [discriminate|]. cbn [orb].
   destruct (eo_tx o) as [t|] eqn:Ht.
   - destruct (eo_idx o >? _) eqn:E1; [discriminate|].
-    destruct (index_in_range (ot_ins t) (eo_idx o)) as [i Hi]; [lia|lia|].
-    destruct (ot_ins t) as [|i0 ins] eqn:Hins.
-    + destruct (negb (is_some (eo_lock o)) && _); [discriminate|].
-      destruct (negb (is_some (eo_unlock o)) && _); [discriminate|].
-      destruct (eo_lock o); [|discriminate]. destruct (eo_prev o) as [[pl|]|]; try discriminate.
-      destruct (bytes_eqb _ _); discriminate.
-    + rewrite Hi.
-      destruct (negb (is_some (eo_lock o)) && _); [discriminate|].
-      destruct (negb (is_some (eo_unlock o)) && _); [discriminate|].
-      destruct (eo_lock o); [|discriminate]. destruct (eo_prev o) as [[pl|]|]; try discriminate.
-      destruct (bytes_eqb _ _); discriminate.
+    destruct (index_in_range (ot_ins t) (eo_idx o)) as [x Hi]; [lia|lia|].
+    rewrite Hi. destruct x as [i|]; [|discriminate].
+    destruct (ot_ins t) as [|i0 ins] eqn:Hins;
+      (destruct (negb (is_some (eo_lock o)) && _); [discriminate|];
+       destruct (negb (is_some (eo_unlock o)) && _); [discriminate|];
+       destruct (eo_lock o); [|discriminate]; destruct (eo_prev o) as [[pl|]|]; try discriminate;
+       destruct (bytes_eqb _ _); discriminate).
   - destruct (negb (is_some (eo_lock o)) && _); [discriminate|].
     destruct (negb (is_some (eo_unlock o)) && _); [discriminate|].
     destruct (eo_lock o); [|discriminate]. destruct (eo_prev o) as [[pl|]|]; try discriminate.
@@ -81,32 +77,19 @@ Theorem apply_opts_no_panic o : apply_opts o <> ARpanic.
 Proof.
   unfold apply_opts.
   destruct (validate o) eqn:Hv; [|discriminate|exfalso; exact (validate_no_panic o Hv)].
-  destruct (validate_ok_facts o Hv) as (H0 & Hr & Hlock & Hunlock).
-  assert (Hidx : forall t, eo_tx o = Some t -> exists i, index (ot_ins t) (eo_idx o) = IOk i).
-  { intros t Ht. apply index_in_range; [exact H0|apply Hr; exact Ht]. }
-  unfold validate_unlock.
+  destruct (validate_ok_facts o Hv) as (H0 & Hidx & Hlock & Hunlock).
+  unfold validate_unlock, deref.
   destruct (eo_unlock o) as [u|] eqn:Hu.
   - destruct (eo_tx o) as [t|] eqn:Ht.
     + destruct (Hidx t eq_refl) as [i Hi]. rewrite Hi.
       assert (Hne : ot_ins t <> []).
-      { intros E. specialize (Hr t eq_refl). rewrite E in Hr. cbn in Hr. lia. }
+      { intros E. rewrite E in Hi. unfold index in Hi. cbn in Hi.
+        destruct (eo_idx o <? 0); [discriminate|]. destruct (0 <=? eo_idx o) eqn:E2; [discriminate|]. lia. }
       destruct (ot_ins t) as [|i0 ins] eqn:Hins; [congruence|].
-      assert (Hrest : forall l : option bytes,
-        match (match eo_lock o with Some l0 => IOk (Some l0) | None => match eo_prev o with None => IPanic | Some pl => IOk pl end end) with
-        | IPanic => ARpanic
-        | IOk l0 =>
-            let empty (s : option bytes) := match s with None | Some [] => true | _ => false end in
-            if empty (Some u) && empty l0 then ARerr
-            else match l0 with Some lb => ARrun (mkExecInput u lb (eo_flags o) true (is_some (eo_prev o)) (ot_lock t) (ot_version t) (oi_seq i)) | None => ARpanic end
-        end <> ARpanic).
-      { intros _. destruct (eo_lock o) as [l|] eqn:Hl.
-        - cbn. destruct u; [destruct l|]; discriminate.
-        - destruct (Hlock eq_refl) as [pl Hp]. rewrite Hp. cbn. destruct u; [destruct pl|]; discriminate. }
-      specialize (Hrest None).
       destruct (oi_unlock i) as [iu|]; [destruct (bytes_eqb u iu); [|discriminate]|];
-        destruct (eo_lock o) as [l|]; try (destruct (eo_prev o) as [pl|]); cbn in *; try congruence;
-        try (destruct u; [destruct l|]; discriminate);
-        try (destruct pl as [pl|]; [destruct u; [destruct pl|]; discriminate|]; exact Hrest).
+        (destruct (eo_lock o) as [l|] eqn:Hl;
+         [cbn; destruct u; [destruct l|]; discriminate
+         |destruct (Hlock eq_refl) as [pl Hp]; rewrite Hp; cbn; destruct u; [destruct pl|]; discriminate]).
     + destruct (eo_lock o) as [l|] eqn:Hl.
       * cbn. destruct u; [destruct l|]; discriminate.
       * destruct (Hlock eq_refl) as [pl Hp]. rewrite Hp. cbn. destruct u; [destruct pl|]; discriminate.
@@ -135,4 +118,13 @@ Proof.
   destruct (eo_idx o <? 0) eqn:E0; [reflexivity|]. cbn [orb].
   destruct (eo_idx o >? _) eqn:E1; [reflexivity|].
   destruct (index_in_range (ot_ins t) (eo_idx o)) as [i Hi']; [lia|lia|]. congruence.
+Qed.
+
+(** ... and a nil input at the requested index, which the later code would dereference *)
+Lemma validate_rejects_nil_input o t :
+  eo_tx o = Some t -> index (ot_ins t) (eo_idx o) = IOk None -> validate o = VRerr.
+Proof.
+  intros Ht Hi. unfold validate. rewrite Ht, Hi.
+  destruct (eo_idx o <? 0) eqn:E0; [reflexivity|]. cbn [orb].
+  destruct (eo_idx o >? _) eqn:E1; reflexivity.
 Qed.
